@@ -99,21 +99,35 @@ func matrixCells(thorough bool) []mcell {
 	return cells
 }
 
-// contractConflict: does the File contract order B's call after A's parked
-// call (or forbid their overlap)?
+// contractCalls: the classified backend calls a request makes (the ones the
+// File contract speaks about), as memfs.Call values carrying method, class and
+// path. A walk makes several: Walk on each directory it passes and GetAttr on
+// each file it reaches (the backend here has no WalkGetAttr).
+func contractCalls(o cop, t ctarget) []*memfs.Call {
+	j := func(p, n string) string { return strings.TrimSuffix(p, "/") + "/" + n }
+	rd := func(m, p string) *memfs.Call { return &memfs.Call{Method: m, Class: memfs.ClassRead, Path: p} }
+	switch o.name {
+	case "walk", "walk-ga":
+		return []*memfs.Call{rd("Walk", t.path), rd("GetAttr", j(t.path, t.child))}
+	case "walk2":
+		return []*memfs.Call{rd("Walk", t.path), rd("GetAttr", j(t.path, "b")), rd("Walk", j(t.path, "b")), rd("GetAttr", j(j(t.path, "b"), "f"))}
+	case "rename", "remove":
+		return []*memfs.Call{{Method: o.method, Class: o.class, Path: parentOf(t.path), Name: baseOf(t.path)}}
+	}
+	return []*memfs.Call{{Method: o.method, Class: o.class, Path: t.path, Name: t.child}}
+}
+
+// contractConflict: does the File contract order a call of request B after a
+// call of request A (or forbid their overlap)?
 func contractConflict(a cop, ta ctarget, b cop, tb ctarget) bool {
-	x := &memfs.Call{Method: a.method, Class: a.class, Path: ta.path, Name: ta.child}
-	y := &memfs.Call{Method: b.method, Class: b.class, Path: tb.path, Name: tb.child}
-	if a.name == "rename" || a.name == "remove" {
-		x.Path, x.Name = parentOf(ta.path), baseOf(ta.path)
+	for _, x := range contractCalls(a, ta) {
+		for _, y := range contractCalls(b, tb) {
+			if memfsConflict(x, y) {
+				return true
+			}
+		}
 	}
-	if a.name == "walk-ga" {
-		x.Path, x.Name = strings.TrimSuffix(ta.path, "/")+"/"+ta.child, ""
-	}
-	if b.name == "rename" || b.name == "remove" {
-		y.Path, y.Name = parentOf(tb.path), baseOf(tb.path)
-	}
-	return memfsConflict(x, y)
+	return false
 }
 
 func parentOf(p string) string {
@@ -167,9 +181,6 @@ func runMatrix(c *ev.Ctx, prop string) {
 			if !c.Mine(i + rep) {
 				continue
 			}
-			if c.Quick() && prop == "C06" && cell.rel != "unrelated" && cell.rel != "same-path" && cell.rel != "same-fid" && cell.rel != "other-conn" {
-				continue
-			}
 			desc := fmt.Sprintf("%s matrix A=%s@%s B=%s@%s rel=%s", prop, cell.a.name, cell.ta.path, cell.b.name, cell.tb.path, cell.rel)
 			c.Begin(desc)
 			w, ok := newConcWorld(2)
@@ -218,7 +229,7 @@ func runMatrix(c *ev.Ctx, prop string) {
 			if out.bOutcome == "inconclusive" {
 				c.Inconclusive("rendezvous: neither entered, answered nor parked: " + desc)
 			}
-			conflict := contractConflict(cell.a, cell.ta, cell.b, cell.tb)
+			conflict := contractConflict(cell.a, out.ta, cell.b, out.tb)
 			det := map[string]any{"A": cell.a.name + "@" + cell.ta.path, "B": cell.b.name + "@" + cell.tb.path, "relation": relKey, "B_outcome": out.bOutcome, "A_parked_in": out.aCall.String()}
 			switch prop {
 			case "C07":
@@ -252,6 +263,13 @@ func runMatrix(c *ev.Ctx, prop string) {
 				case (cell.rel == "same-path" || cell.rel == "same-fid" || cell.rel == "other-conn") && cell.a.class == memfs.ClassRead && cell.b.class == memfs.ClassRead:
 					mustNot, why = true, "read-read"
 				}
+				classified := func(o cop) bool { return o.class == memfs.ClassRead || o.class == memfs.ClassWrite }
+				precise := false
+				if !mustNot && classified(cell.a) && classified(cell.b) && !conflict {
+					// the statement itself: the contract does not order B's call
+					// after A's, whatever the relation of the two paths
+					mustNot, why, precise = true, "not-ordered-by-the-File-contract", true
+				}
 				if cell.rel == "same-fid" && (cell.a.name == "clunk" || cell.b.name == "clunk") {
 					mustNot = false
 				}
@@ -267,7 +285,28 @@ func runMatrix(c *ev.Ctx, prop string) {
 					if cell.rel == "other-conn" {
 						rel = "other-connection" + relKey[len(cell.rel):]
 					}
-					c.Violation(fmt.Sprintf("C06:head-of-line-blocking:%s-parked-delays-%s:%s:%s", cell.a.name, cell.b.name, why, rel), det)
+					sig := fmt.Sprintf("C06:head-of-line-blocking:%s-parked-delays-%s:%s:%s", cell.a.name, cell.b.name, why, rel)
+					if precise {
+						// the history behind the fids is in the details; two
+						// call sites of p9 are named as such (known_findings.txt)
+						sig = fmt.Sprintf("C06:head-of-line-blocking:%s-parked-delays-%s:%s:%s", cell.a.name, cell.b.name, why, cell.rel)
+						// a write-class call on the directory that holds the
+						// cloned entry (Tremove: UnlinkAt on its parent)
+						wr := func(o cop, t ctarget, of ctarget) bool {
+							dir := t.path
+							if o.name == "remove" {
+								dir = parentOf(t.path)
+							}
+							return o.class == memfs.ClassWrite && dir == parentOf(of.path) && of.path != "/"
+						}
+						switch {
+						case cell.a.name == "clone" && wr(cell.b, out.tb, out.ta):
+							sig = "C06:head-of-line-blocking:" + why + ":clone-read-locks-the-parent-directory:clone-parked-delays-write-on-parent"
+						case cell.b.name == "clone" && wr(cell.a, out.ta, out.tb):
+							sig = "C06:head-of-line-blocking:" + why + ":clone-read-locks-the-parent-directory:clone-delayed-by-write-on-parent"
+						}
+					}
+					c.Violation(sig, det)
 				}
 				if mustNot && (out.bOutcome == "entered" || out.bOutcome == "answered") {
 					c.Count("independent_requests_completed_while_A_parked", 1)
